@@ -984,6 +984,58 @@ static int op_cms(TH *t, const OP *op, DR *d, FH *o)
 	return ok;
 }
 
+/* a CMS message (SignedData / EnvelopedData / EncryptedData by b % 3) is made and then printed several times: the printers are pure
+ * functions of the message, so the text must be the same whatever other threads print at the same moment */
+static int op_cmsprint(TH *t, const OP *op, DR *d, FH *o)
+{
+	size_t len = (size_t)CLAMP(op->a, 1, 512), cmslen = 0, textlen = 0, ilen = 0, alen;
+	uint8_t *m = dr_alloc(d, len), *cms = (uint8_t *)malloc(len * 2 + 16384);
+	const uint8_t *leaf, *inner = NULL, *a;
+	size_t leaflen = 0;
+	uint8_t key[16], iv[16];
+	char *text = NULL;
+	FILE *fp;
+	int r1 = -9, r2 = -9, r3 = -9, i, ok = 0, reps = 1 + (int)(op->c & 3);
+	(void)t;
+	x509_certs_get_cert_by_index(g_chain_tls, g_chain_tlslen, 0, &leaf, &leaflen);
+	dr_bytes(d, key, 16); dr_bytes(d, iv, 16);
+	switch ((unsigned long)op->b % 3) {
+	case 0: {
+		SM2_KEY k;
+		CMS_CERTS_AND_KEY signer;
+		uint8_t *certs = (uint8_t *)malloc(leaflen + 1);
+		memcpy(certs, leaf, leaflen);
+		key_from_d(&k, g_leaf_d);
+		signer.certs = certs; signer.certs_len = leaflen; signer.sign_key = &k;
+		r1 = cms_sign(cms, &cmslen, &signer, 1, OID_cms_data, m, len, NULL, 0);
+		free(certs);
+		break; }
+	case 1:
+		r1 = cms_envelop(cms, &cmslen, leaf, leaflen, OID_sm4_cbc, key, 16, iv, 16, OID_cms_data, m, len, NULL, 0, NULL, 0);
+		break;
+	default:
+		r1 = cms_encrypt(cms, &cmslen, OID_sm4_cbc, key, 16, iv, 16, OID_cms_data, m, len, NULL, 0, NULL, 0);
+		break;
+	}
+	f_int(o, r1);
+	if (r1 == 1) {
+		ok = 1;
+		for (i = 0; i < reps; i++) {
+			if (!(fp = open_memstream(&text, &textlen))) { ok = 0; break; }
+			Y();
+			r2 = cms_print(fp, 0, (int)((op->c >> 2) & 7), "CMS", cms, cmslen);
+			a = cms; alen = cmslen;
+			r3 = asn1_sequence_from_der(&inner, &ilen, &a, &alen) == 1 ? cms_content_info_print(fp, 0, 0, "ContentInfo", inner, ilen) : -8;
+			fclose(fp);
+			f_int(o, r2); f_int(o, r3); f_buf(o, text, textlen);
+			if (r2 != 1 || r3 != 1 || textlen < 100) ok = 0;
+			free(text); text = NULL;
+		}
+	}
+	free(m); free(cms);
+	return ok;
+}
+
 /* ------------------------------------------------------------------ ops: base64 / PEM / DER */
 
 static int op_b64pem(TH *t, const OP *op, DR *d, FH *o)
@@ -1355,7 +1407,7 @@ static const struct { const char *name; op_fn fn; } OPS[] = {
 	{ "sm4cbc", op_sm4cbc }, { "sm4ctr", op_sm4ctr }, { "sm4gcm", op_sm4gcm }, { "aes", op_aes }, { "zuc", op_zuc },
 	{ "sm2key", op_sm2key }, { "sm2sign", op_sm2sign }, { "sm2enc", op_sm2enc },
 	{ "sm9sign", op_sm9sign }, { "sm9enc", op_sm9enc },
-	{ "x509", op_x509 }, { "x509time", op_x509time }, { "x509print", op_x509print }, { "cms", op_cms }, { "b64pem", op_b64pem }, { "der", op_der },
+	{ "x509", op_x509 }, { "x509time", op_x509time }, { "x509print", op_x509print }, { "cms", op_cms }, { "cmsprint", op_cmsprint }, { "b64pem", op_b64pem }, { "der", op_der },
 	{ "tlsrec", op_tlsrec }, { "tls13rec", op_tls13rec }, { "hs", op_hs },
 };
 #define N_OPS (sizeof(OPS) / sizeof(OPS[0]))
